@@ -83,6 +83,14 @@ func vh_C01_L4_duplicate_suppression() {
 	if ok2 {
 		vassert(t2-cum <= adv || a.payloadQueue.hasChunk(t2), "accepted TSN is reported: cumulatively acked or tracked for the gap report")
 	}
+	// and conversely: a TSN is tracked as received (it will be named in a gap block, and be
+	// walked over by the cumulative point later) only if its chunk was accepted and stored
+	if a.payloadQueue.hasChunk(t1) {
+		vassert(ok1 || (ok2 && t1 == t2), "a chunk that was dropped (outside the window) is never marked as received")
+	}
+	if a.payloadQueue.hasChunk(t2) {
+		vassert(ok2 || (ok1 && t1 == t2), "a chunk that was dropped (outside the window) is never marked as received")
+	}
 	// (gap-block extraction from the bitmap is decided separately by vh_C05_bmc_gaps)
 	vobserve("want", uint64(want))
 	vobserve("adv", uint64(adv))
